@@ -2,6 +2,7 @@ package fun
 
 import (
 	"fmt"
+	"sort"
 	"strconv"
 
 	"github.com/goghcrow/yae/types"
@@ -48,9 +49,15 @@ func stringify0(v *val.Val, inProcess util.PtrSet) string {
 		if len(m.V) == 0 {
 			return "[:]"
 		}
+		// 按 key 排序, 否则结果依赖 map 遍历顺序
+		ord := make([]val.Key, 0, len(m.V))
+		for k := range m.V {
+			ord = append(ord, k)
+		}
+		sort.SliceStable(ord, func(i, j int) bool { return ord[i].String() < ord[j].String() })
 		xs := make([]string, 0, len(m.V))
-		for k, v := range m.V {
-			xs = append(xs, fmt.Sprintf("%s: %s", k, stringify0(v, inProcess)))
+		for _, k := range ord {
+			xs = append(xs, fmt.Sprintf("%s: %s", k, stringify0(m.V[k], inProcess)))
 		}
 		return util.JoinStr(xs, ", ", "[", "]")
 	case types.KObj:
